@@ -323,7 +323,8 @@ impl G {
         let bshape_: Vec<usize> = match kind { 0..=5 => vec![n], 6 => vec![1, n], 7 => vec![], 8 => vec![1], _ => vec![n] };
         let is_const = kind != 9;
         let cnt = prod(&bshape_);
-        let bias = if is_const { let vals = (0..cnt).map(|_| self.rng.range(-3, 3) as f64).collect(); self.konst(Dt::F, &bshape_, vals) } else { self.input(Dt::F, &bshape_) };
+        // a single-element zero bias would be removed by IdentityFusion first
+        let bias = if is_const { let vals = (0..cnt).map(|_| { let v = self.rng.range(-3, 3); if cnt == 1 && v == 0 { 2.0 } else { v as f64 } }).collect(); self.konst(Dt::F, &bshape_, vals) } else { self.input(Dt::F, &bshape_) };
         let left = self.rng.chance(30);
         let y = if left { self.binary("Add", root, bias, mm) } else { self.binary("Add", root, mm, bias) }.unwrap_or(mm);
         (y, format!("matmul_add|{}|{}|{}", if is_const { "const" } else { "value" }, shape_str(&bshape_), if left { "L" } else { "R" }), mm)
@@ -754,6 +755,7 @@ impl G {
         self.spec.data.retain(|(n, _)| names.contains(n));
         self.spec.consts.retain(|c| consumed.contains(&c.name));
         self.spec.outputs = outs;
+        self.spec.hidden = self.hidden.clone();
         self.spec.exact = self.exact;
         let tag = if self.tags.is_empty() { "glue".to_string() } else { self.tags.join("+") };
         (self.spec, tag)
